@@ -155,12 +155,14 @@ func runWal(c *hx.Ctx, r *hx.Rng, st *state) bool {
 	// the tail: nothing, a strict prefix of one more frame, or damage
 	tail := "clean"
 	torn, tornFrame, tornComp := walRec{}, []byte(nil), []byte(nil)
+	tornLen := 0 // bytes of the torn frame that made it into data
 	switch r.Intn(8) {
 	case 0:
 	case 1, 2, 3: // torn at a random point
 		torn, tornFrame, tornComp = mk(0)
 		cut := r.Intn(len(tornFrame))
 		data = append(data, tornFrame[:cut]...)
+		tornLen = cut
 		tail = "torn"
 		if cut < 5 {
 			tail = "torn-in-header"
@@ -172,6 +174,7 @@ func runWal(c *hx.Ctx, r *hx.Rng, st *state) bool {
 			binary.BigEndian.PutUint32(tornFrame[1:5], uint32(len(lastComp)))
 		}
 		data = append(data, tornFrame[:5]...)
+		tornLen = 5
 		tail = "header-only"
 	case 6: // unknown record type
 		data = append(data, byte([]int{0, 3, 4, 255}[r.Intn(4)]), 0, 0, 0, 1, 9)
@@ -226,15 +229,7 @@ func runWal(c *hx.Ctx, r *hx.Rng, st *state) bool {
 	// fabricated batch is a well-formed one (a record delivered twice, or the buffer's previous
 	// record): that is reported as a violation instead.
 	if tornFrame != nil && (tail == "torn" || tail == "header-only") {
-		// the torn part is the suffix of data that is a prefix of tornFrame (header possibly
-		// patched): find it by length
-		tl := 0
-		for k := len(tornFrame); k >= 5; k-- {
-			if len(data) >= k && bytes.Equal(data[len(data)-k+5:], tornFrame[5:k]) && data[len(data)-k] == tornFrame[0] {
-				tl = k
-				break
-			}
-		}
+		tl := tornLen
 		if tl >= 5 {
 			n := int(binary.BigEndian.Uint32(data[len(data)-tl+1 : len(data)-tl+5]))
 			avail := data[len(data)-tl+5:]
